@@ -40,6 +40,10 @@ func respellInts(text string, rng *rand.Rand) string {
 		}
 		mod := new(big.Int).Lsh(big.NewInt(1), uint(w))
 		u := new(big.Int).Mod(v, mod)
+		if v.Sign() < 0 && rng.Intn(2) == 0 {
+			// negative: the unsigned decimal spelling of the same bits
+			return fmt.Sprintf("%s %s", m[1], u.String())
+		}
 		if v.Sign() < 0 {
 			// negative: full-width s0x (bit w-1 set, so LLVM and the type-width rule agree)
 			hx := strings.ToUpper(u.Text(16))
